@@ -557,6 +557,7 @@ func (c01) Run(plan interface{}, schedSeed uint64, replay []simrt.Choice, lenien
 	for _, c := range out.Crashes {
 		v.Violate("panic", "panic "+CrashSig(c), "task %s panicked: %s\n%s", c.Task, c.Value, c.Stack)
 	}
+	BlockedTasks(v, out, "a send, a receive of the answer or Close never returned")
 	if pr.Asm.Err != "" {
 		v.Violate("unparsable", "stream does not parse as packets", "%s", pr.Asm.Err)
 	}
